@@ -393,7 +393,9 @@ func runC14(o Opts) error {
 						c14round(s, "Date", dt, cvZ(y, m, d), "", z, "round/date-on-offset-change-day")
 					}
 					t := time.Date(y, time.Month(m), d, 12, 0, 0, 0, time.Local)
-					c14round(s, "DateTime", types.DateTime(t), cvZ(y, m, d, 12, 0, 0), t.Format("MST"), z, "round/datetime-on-offset-change-day")
+					if t.Year() == y && int(t.Month()) == m && t.Day() == d && t.Hour() == 12 { // the day may not exist at all (Pacific/Apia 2011-12-30)
+						c14round(s, "DateTime", types.DateTime(t), cvZ(y, m, d, 12, 0, 0), t.Format("MST"), z, "round/datetime-on-offset-change-day")
+					}
 				}
 			}
 			prevOff = off
@@ -450,7 +452,20 @@ func runC14(o Opts) error {
 				composites += 3
 			}
 		}
-		if zi > 0 && !thorough {
+		// date-time texts under every zone (02:30 on 2024-03-10 does not exist in the zones that change their clocks that
+		// night: the model speaks about civil times that exist, so such a text is left out for that zone)
+		for _, t := range []string{`"2024-03-10 02:30:00"`, `"2024-03-10 12:30:00 UTC"`, `"2024-03-10 12:30:00 +0545"`, `"2024-03-10 12:30:00 XYZT"`, `"2024-03-10 12:30:00 -0930"`, `"2024-03-10 12:30:00 +0845"`, `"2024-03-10 12:30:00 -03"`, `"2024-03-10 12:30:00 +14"`, `"2024-03-10 12:30:00 -0430"`, `"2024-03-10 12:30:00 +1245"`, `"2024-02-30 12:30:00"`, `"2024-03-10 24:00:00"`, `"2024-03-10 12:30:00 "`, `"2024-03-10T12:30:00"`, `""`, `null`} {
+			if len(t) >= 21 {
+				if ct, err := time.Parse("2006-01-02 15:04:05", t[1:20]); err == nil {
+					lt := time.Date(ct.Year(), ct.Month(), ct.Day(), ct.Hour(), ct.Minute(), ct.Second(), 0, time.Local)
+					if lt.Hour() != ct.Hour() || lt.Minute() != ct.Minute() || lt.Day() != ct.Day() {
+						continue
+					}
+				}
+			}
+			c14of(s, "DateTime", t, z, "of/datetime")
+		}
+		if zi > 0 {
 			continue // everything below is zone independent
 		}
 		for i := 0; i < 40; i++ {
@@ -568,9 +583,6 @@ func runC14(o Opts) error {
 		}
 		for _, t := range []string{`[]`, `[{"start":"08:30","end":"17:00"}]`, `[{},{},{},{"start":"01:00"}]`, `[{"start":"25:00"}]`, `[{"end":"23:60"}]`, `null`, `[null]`, `[{"start":"08:30","end":"09:45"},{"start":"10:00","end":"10:00"},{"start":"24:00","end":"24:00"}]`} {
 			c14of(s, "Segments", t, z, "of/segments")
-		}
-		for _, t := range []string{`"2024-03-10 02:30:00"`, `"2024-03-10 12:30:00 UTC"`, `"2024-03-10 12:30:00 +0545"`, `"2024-03-10 12:30:00 XYZT"`, `"2024-03-10 12:30:00 -0930"`, `"2024-03-10 12:30:00 +0845"`, `"2024-03-10 12:30:00 -03"`, `"2024-03-10 12:30:00 +14"`, `"2024-03-10 12:30:00 -0430"`, `"2024-03-10 12:30:00 +1245"`, `"2024-02-30 12:30:00"`, `"2024-03-10 24:00:00"`, `"2024-03-10 12:30:00 "`, `"2024-03-10T12:30:00"`, `""`, `null`} {
-			c14of(s, "DateTime", t, z, "of/datetime")
 		}
 	}
 	recheckKept(s)
